@@ -306,6 +306,30 @@ def missing_guard(chk, prog, funcs):
                     gs = approx_guards(pm, n)
                     if not any(literal_value(v) == MISS and not holds for (holds, x, v) in gs):
                         problems.append((n, 'counter `%s` is incremented outside the not-missing arm' % f.unit.text(n)))
+            # divisors that count the data must be the guarded counters, not the loop index or the raw length
+            loopvars = set()
+            for lp in [x for x in walk(f.body) if x.get('kind') in flow.LOOPS]:
+                ind = flow.induction(lp)
+                if ind:
+                    loopvars.add(ind['var'].split('#')[1])
+            for n in walk(f.body):
+                isdiv = (n.get('kind') == 'BinaryOperator' and n.get('opcode') == '/') or \
+                        (n.get('kind') == 'CompoundAssignOperator' and n.get('opcode') == '/=')
+                if not isdiv or not tests:
+                    continue
+                d = strip(kids(n)[1])
+                if fe.is_float_type(d) and not any(y.get('kind') in ('CStyleCastExpr', 'ImplicitCastExpr') and
+                                                   not fe.is_float_type(strip(y)) for y in [kids(n)[1]]):
+                    dd = strip(kids(n)[1])
+                    if fe.is_float_type(dd):
+                        continue
+                for y in walk(kids(n)[1]):
+                    if y.get('kind') == 'DeclRefExpr' and y['referencedDecl']['id'] in loopvars:
+                        problems.append((n, 'the divisor `%s` depends on the loop index, which also counts the missing-coded cells'
+                                         % f.unit.text(kids(n)[1])[:40]))
+                    if y.get('kind') == 'MemberExpr' and y.get('name') in ('size', 'row', 'col') and not fe.is_float_type(y):
+                        problems.append((n, 'the divisor `%s` is the raw length, which also counts the missing-coded cells'
+                                         % f.unit.text(kids(n)[1])[:40]))
             if nreads == 0:
                 chk.broke('missing-guard: %s reads no input element' % name)
             if problems:
